@@ -128,6 +128,10 @@ http_parse_header(nng_http *conn, void *line)
 	if ((val = strchr(key, ':')) == NULL) {
 		return (NNG_EPROTO);
 	}
+	// The field name is a token, which is never empty (RFC 9112 5).
+	if (val == key) {
+		return (NNG_EPROTO);
+	}
 
 	// Trim leading and trailing whitespace from header
 	*val = '\0';
